@@ -8,9 +8,15 @@ channel nobody listens on, really have no handler at all.  Their dispatch cannot
 the queue passes: a handler-less event counts as dispatched once the pass that holds it has ended (and is given the benefit
 of the doubt while that pass runs).
 
+Generator handlers also `yield self.call(ev[, timeout=k])` (1-3 in a row, mixed with plain fires and bare yields) and
+`self.fire(ev); yield self.wait(ev | 'name'[, timeout=k])`; the called / awaited event is an ordinary member of the closure
+(ghost child of the calling event, fired from a generator step).  Whether and with what the caller is resumed is C06's
+subject: here a resumption or a caught TimeoutError just continues the handler.  In half of the runs the harness fires
+`generate_events` before every tick() (what a running manager does) so that timeouts elapse.
+
 Liveness bound (stated by the guide's rule for liveness properties): once the harness has seen the closure of a dispatched,
 complete-requesting event drained (checked after every tick()/flush() it issues), `<name>_complete` must have been fired
-within BOUND = 4 x (total generator steps of the program) + max depth + 10 further tick() calls; otherwise the run reports
+within BOUND = 4 x (total generator steps of the program) + 6 x (call/wait sites) + max depth + 10 further tick() calls; otherwise the run reports
 `C05/never-completes/<shape>` (the '/liveness' clause of the statement).  A run whose queue/tasks do not become idle within
 the step cap raises HarnessLimit (not a violation).
 
@@ -49,7 +55,8 @@ LEVEL_NOTE = ('trusted: the ghost bookkeeping in the generated handlers (who fir
 RULE = ('each run = generated program (1-3 components on channels */x/y, 1-6 handler slots, plain or generator, priorities with ties; '
         'events fired on the firer\'s channel, *, x, y or a deaf channel, so some have no handler at all) + 1-4 root event '
         'trees (fan-out <= 3, depth <= 5, complete / nested complete / complete_channels flags, cancel-by-firer / cancel-by-harness / '
-        'stop / raise placed on any descendant, children fired from any generator step) + a tick()/flush() schedule with the roots '
+        'stop / raise placed on any descendant, children fired - or called / waited for, with timeouts none/0/1/2 - from any generator step) '
+        '+ a tick()/flush() schedule (generate_events before every tick in half of the runs) with the roots '
         'fired at drawn points, all from one seeded tape; non-trivial = a dispatched complete-requesting event had a closure of >= 3 '
         'events containing at least one fault, one handler-less member or one child fired from a generator step; distinct = distinct digest of the full '
         'fire/dispatch/handler-step/cancel/complete log')
@@ -60,7 +67,8 @@ REAL = ['circuits.core.manager.Manager (fire/_fire/flush/tick/_dispatcher/_event
         'circuits.core.handlers.handler', 'circuits.core.events.Event (cancel/stop/child/complete/complete_channels)',
         'circuits.core.values.Value']
 STUBBED = ['handler tie-break order and task stepping order (decided by the tape through the Manager.getHandlers / _tasks seams)',
-           'stderr of circuits.core (sink)']
+           'stderr of circuits.core (sink)',
+           'the main loop: the harness calls tick()/flush() itself and, in half of the runs, fires generate_events(lock, 0) before every tick()']
 ASSUMPTIONS = [
     'closure = events fired by generated handler code (ghost parent = event whose handler executed the fire); manager-generated '
     'feedback events (exception, *_success, *_complete, registered, unregistered) are outside it and their observers only log',
@@ -70,7 +78,10 @@ ASSUMPTIONS = [
     'a complete-requesting event that is itself cancelled before dispatch: nothing is demanded for it (the quantifier cancels descendants); '
     'at most one `_complete` still applies',
     'handlers are plain functions; a "generator handler" is a handler returning a generator object (what a generator function call does)',
-    'handlers never call flush()/tick() re-entrantly, never wait()/call() (C06)',
+    'handlers never call flush()/tick() re-entrantly',
+    'an event that is called / waited for is never cancelled and none of its handlers calls stop() (the waiting handler would hang for '
+    'ever: C06); wait(\'name\') is always preceded by a fire of an event of that name on the waiting component\'s channel',
+    'the temporary handlers that call()/wait() install for the awaited name are not counted as handlers of the generated events',
     'which generated handlers an event reaches is predicted from name and channel (event channel "*" reaches all; otherwise components '
     'whose channel is "*" or the event channel) - matching itself is C01\'s subject',
     'an event without any handler is "dispatched to all its handlers" as soon as it has been popped; that moment is not observable, so '
